@@ -543,6 +543,13 @@ def rule_loop_exit(ctx):
 RESOLVING = {"set_state", "mark_completed", "_reset_step_to_pending", "_finalize_failed_run"}
 
 
+def kwarg_of(call, name):
+    for k in call.keywords:
+        if k.arg == name:
+            return k.value
+    return None
+
+
 def rule_transient_state_resolved(ctx):
     """R-C10-9: CHECKING and RUNNING are transient: every job handler leaves them on every exit path.
 
@@ -567,6 +574,20 @@ def rule_transient_state_resolved(ctx):
     ctx.check(any(callee_name(c) == "mark_completed" for c in calls_in(ff.node)), ff.fq, "finalising records a completion", "no mark_completed", "mark_completed")
     rp = ctx.prog.func("executor.Executor._reset_step_to_pending")
     ctx.check(any(callee_name(c) == "set_state" and c.args and ast.unparse(c.args[0]) == "StepState.PENDING" for c in calls_in(rp.node)), rp.fq, "puts the step back to PENDING", "no set_state(PENDING)", "set_state(PENDING)")
+    # a job that puts the step back to PENDING without having run it must change what the next pop sees:
+    # either the stored hash is gone (the next job runs the command) or the step is parked as deferred
+    n_back = 0
+    for fi in ctx.prog.module("executor").all_funcs.values():
+        for c in calls_in(fi.node):
+            if callee_name(c) == "set_state" and c.args and ast.unparse(c.args[0]) == "StepState.PENDING":
+                n_back += 1
+                recv = ast.unparse(c.func.value)
+                drops_hash = any(callee_name(d) == "delete_hash" and ast.unparse(d.func.value) == recv and d.lineno < c.lineno for d in calls_in(fi.node))
+                flag = c.args[1] if len(c.args) > 1 else kwarg_of(c, "deferred")
+                parks = flag is not None and not (isinstance(flag, ast.Constant) and flag.value is False)
+                ctx.check(drops_hash or parks, fi.fq, f"{recv}.set_state(PENDING) after a job that did not run the command changes eligibility", "the step goes back to PENDING with its stored hash and without the deferred flag: the next pop selects it again and derives the same job, so the build phase never ends", "hash deleted first" if drops_hash else "parked as deferred while a dynamic input is unavailable", where=ctx.where_of(fi, c))
+    if n_back < 2:
+        raise AnalysisError("executor: set_state(PENDING) sites not found")
     for fq in ("executor.Executor.validate_dynamic_job", "executor.Executor.try_skip_job", "executor.Executor.execute_job"):
         fi = ctx.prog.func(fq)
         n = 0
@@ -627,7 +648,7 @@ RULES = [
     Rule("R-C10-5", "wake-ups after eligibility-changing events", rule_wakeups, min_instances=9),
     Rule("R-C10-6", "job_loop returns only after an empty poll", rule_loop_exit, min_instances=3),
     Rule("R-C10-7", "defer cap", rule_defer_cap, min_instances=5),
-    Rule("R-C10-9", "job handlers leave the transient states on every exit", rule_transient_state_resolved, min_instances=6),
+    Rule("R-C10-9", "job handlers leave the transient states on every exit", rule_transient_state_resolved, min_instances=8),
     Rule("R-C10-8", "'needed' is computed from attached consumers, targets and declared need", C11.rule_read_set, min_instances=10),
 ]
 
@@ -637,7 +658,9 @@ def _drop_trigger(name):
 
 
 MUTANTS = [
-    Mutant("validated-step-stays-checking", "executor.py", in_function("Executor.validate_dynamic_job", replace_once("        async with self.db:\n            step.set_state(StepState.PENDING)\n", "")), ("R-C10-9",)),
+    Mutant("validated-step-not-parked", "executor.py", in_function("Executor.validate_dynamic_job", replace_once("step.set_state(StepState.PENDING, step.has_unavailable_dynamic_input())", "step.set_state(StepState.PENDING)")), ("R-C10-9",)),
+    Mutant("reset-keeps-hash", "executor.py", in_function("Executor._reset_step_to_pending", replace_once("            step.delete_hash()\n", "")), ("R-C10-9",)),
+    Mutant("validated-step-stays-checking", "executor.py", in_function("Executor.validate_dynamic_job", replace_once("        async with self.db:\n            step.set_state(StepState.PENDING, step.has_unavailable_dynamic_input())\n", "")), ("R-C10-9",)),
     Mutant("noskip-stays-checking", "executor.py", in_function("Executor.try_skip_job", replace_once("            await self._noskip(run, step_hash, new_hash)\n            await self._reset_step_to_pending(step)\n            # The output files", "            await self._noskip(run, step_hash, new_hash)\n            # The output files")), ("R-C10-9",)),
     Mutant("cancelled-out-hash-stays-checking", "executor.py", in_function("Executor.try_skip_job", replace_once("            await self._finalize_failed_run(run)\n            return\n", "            return\n")), ("R-C10-9",)),
     Mutant("safe-merge-by-min", "scheduler.py", replace_once("SELECT i, safe, safe_nh FROM (SELECT i, safe, safe_nh, MAX(depth) FROM trace GROUP BY i)", "SELECT i, MIN(safe), MIN(safe_nh) FROM trace GROUP BY i"), ("R-C10-4",)),
